@@ -21,6 +21,7 @@ import z3
 from pyvc import extract
 from pyvc.dsl import And, Defs, fdiv
 from pyvc.harness import cover_thunk, smt_thunk
+from pyvc.loops import ArrV, LoopHooks, loop_nodes
 from pyvc.objects import ClassHooks
 from pyvc.symex import Engine, Opaque, Raise, Rec, SliceV, SymList, Unsupported, is_sym
 
@@ -341,6 +342,226 @@ def kmer_obligations(chk):
                        key=f"C12/{fn}/post", replayer=_replay_kmer)
 
 
+# ------------------------------------------------------------------------------------------------ k-mer indices of a whole sequence
+class KSeqHooks(LoopHooks, KmerHooks):
+    """seq / result are symbolic arrays of any length; a slice of width 3 is the vector of its three reads"""
+
+    def __init__(self, funcs, specs):
+        KmerHooks.__init__(self, funcs, set())
+        self.loop_specs = specs
+        self.fn_nodes = funcs
+
+    def call_method(self, eng, obj, meth, args, kw, env):
+        if isinstance(obj, ArrV) and meth == "__len__":
+            return obj.shape[0]
+        if isinstance(obj, Opaque) and obj.tag == "module" and meth == "ceil":
+            x = args[0]
+            if is_sym(x) and z3.is_real(x):
+                return -z3.ToInt(-x)                    # ceil(x) == -floor(-x), an integer
+            if is_sym(x):
+                return x
+            import math
+            return math.ceil(x)
+        if isinstance(obj, Vec) and meth == "all":
+            return z3.And([b if is_sym(b) else z3.BoolVal(bool(b)) for b in obj.items])
+        if isinstance(obj, Vec) and meth == "max":
+            m = obj.items[0]
+            for x in obj.items[1:]:
+                m = z3.If(x > m, x, m)
+            return m
+        return super().call_method(eng, obj, meth, args, kw, env)
+
+    def subscript(self, eng, obj, idx):
+        if isinstance(obj, ArrV):
+            if isinstance(idx, tuple) and idx and isinstance(idx[0], str) and idx[0] == "store":
+                obj.write(eng, idx[1], idx[2])
+                return None
+            if isinstance(idx, SliceV):
+                if idx.step is not None:
+                    raise Unsupported("strided array slice")
+                width = z3.simplify(idx.stop - idx.start) if is_sym(idx.stop - idx.start) else idx.stop - idx.start
+                if is_sym(width):
+                    if not z3.is_int_value(width):
+                        raise Unsupported("array slice of symbolic width")
+                    width = width.as_long()
+                # numpy clips slices; the contract's loop keeps start + width <= len(seq), which read() demands
+                return Vec([obj.read(eng, idx.start + t) for t in range(width)])
+            return obj.read(eng, idx)
+        return super().subscript(eng, obj, idx)
+
+
+def _patch_vec_cmp(eng):
+    orig = eng.cmp
+    import ast as _ast
+
+    def cmp(op, l, r):
+        if isinstance(r, Vec) and not isinstance(l, Vec):
+            return Vec([orig(op, l, x) for x in r.items])
+        if isinstance(l, Vec) and not isinstance(r, Vec):
+            return Vec([orig(op, x, r) for x in l.items])
+        return orig(op, l, r)
+    eng.cmp = cmp
+
+
+def kmer_seq_obligations(chk):
+    """seq_to_kmer_indices for codons (k = 3), sequences of every length: cell r of the result is the mixed-radix index
+    of seq[r*step : r*step+3] when all three are canonical states, and a value outside [0, n**3) otherwise; the number
+    of cells written is the number of k-mers; later cells are untouched; ValueError exactly when the result is too short"""
+    NA = "cogent3/core/new_alphabet.py"
+    name = "seq_to_kmer_indices"
+    fn = f"core.new_alphabet.{name}"
+    funcs = {n_: extract.get(NA, n_) for n_ in ("coord_conversion_coeffs", "coord_to_index", name)}
+    chk.function(NA, name, "P")
+    if len(loop_nodes(funcs[name])) != 1:
+        chk.undecided.append(f"{fn}: expected one loop")
+        return
+    n, L, Rn = z3.Ints("nstates L R")
+    g, gi = z3.Ints("gap_char_index gap_index")
+    r0 = z3.Int("r0")
+    for indep in (True, False):
+        for gapmode in (False, True):
+            step = 3 if indep else 1
+            seq = ArrV.fresh("seq", (L,), elem=z3.IntSort())
+            res0 = z3.Const("result0", z3.ArraySort(z3.IntSort(), z3.IntSort()))
+            q = z3.Int("q")
+            pre = [n >= 2, L >= 0, Rn >= 0, z3.ForAll([q], z3.Implies(z3.And(0 <= q, q < L), seq.at(q) >= 0))]
+            if gapmode:
+                pre += [g > 0, g >= n, gi == n * n * n]          # as KmerAlphabet.to_indices calls it
+            cfg = f"(independent_kmer={indep},gaps={'on' if gapmode else 'off'})"
+
+            def spec_cell(r):
+                i = r * step
+                a, b, c = seq.at(i), seq.at(i + 1), seq.at(i + 2)
+                canon = z3.And(a < n, b < n, c < n)
+                mx = z3.If(b > a, b, a)
+                mx = z3.If(c > mx, c, mx)
+                if gapmode:
+                    other = z3.If(mx == g, gi, gi + 1)
+                else:
+                    other = n * n * n
+                return canon, a * n * n + b * n + c, other
+
+            def inv(env, j, step=step, spec_cell=spec_cell):
+                res = env["result"]
+                canon, idx, other = spec_cell(r0)
+                return z3.And(z3.Implies(z3.And(0 <= r0, r0 < j), res.at(r0) == z3.If(canon, idx, other)),
+                              z3.Implies(r0 >= j, res.at(r0) == z3.Select(res0, r0)))
+
+            spec = dict(invariant=inv, modifies=["result"])
+            hooks = KSeqHooks(funcs, {(name, 0): spec})
+            eng = Engine(funcs, hooks, prune_logic=None, prune_ms=500)
+            _patch_vec_binop(eng)
+            _patch_vec_cmp(eng)
+
+            def entry(e, indep=indep, gapmode=gapmode, seq=seq, res0=res0):
+                e.state["current_function"] = name
+                coeffs = e.call("coord_conversion_coeffs", dict(num_states=n, k=3, dtype=None))
+                result = ArrV(res0, (Rn,), z3.IntSort(), name="result")
+                e.state["result"] = result
+                kw = dict(seq=seq, result=result, coeffs=coeffs, num_states=n, k=3, independent_kmer=indep)
+                if gapmode:
+                    kw.update(gap_char_index=g, gap_index=gi)
+                else:
+                    kw.update(gap_char_index=-1, gap_index=-1)
+                return e.call(name, kw)
+            try:
+                paths = eng.run(entry, pre)
+            except Unsupported as u:
+                chk.undecided.append(f"{fn}/cfg={cfg}: UNSUPPORTED {u}")
+                continue
+            base = f"{fn}/cfg={cfg}"
+            chk.obligation(f"{base}/cover", "cover", cover_thunk(pre + [L >= 3, Rn >= L]), function=fn)
+            from pyvc.dsl import Defs as _D
+            from speclib.slices import len_range
+            _D.push()
+            count = len_range(0, L - 3 + 1, step)
+            defs, _nz = _D.pop()
+            n_ret = 0
+            for k_, p in enumerate(paths):
+                for j_, nm in enumerate(getattr(p, "inline", [])):
+                    kind = nm.split(":")[0]
+                    chk.discharged_inline(f"{base}/{nm}/path={k_}.{j_}", kind if kind.startswith("inv") else "noexcept", function=fn)
+                for nm, pc, cond in p.obligations:
+                    kind = nm.split(":")[0]
+                    chk.obligation(f"{base}/{nm}/path={k_}", kind if kind.startswith("inv") else "noexcept",
+                                   smt_thunk(pc, cond, timeout=30, logic=None, instantiate=(2, [L, Rn])), function=fn,
+                                   key=f"C12/{fn}/{nm.split('#')[0]}", replayer=_replay_kmer_seq)
+                if p.outcome == "abort":
+                    continue
+                if p.outcome == "raise":
+                    # ValueError exactly when the result array cannot hold one cell per k-mer
+                    goal = z3.And(z3.BoolVal(p.value == "ValueError"), z3.Implies(z3.And(defs), Rn < count))
+                    chk.obligation(f"{base}/post.raises-only-when-result-too-short/path={k_}", "post",
+                                   smt_thunk(p.pc, goal, 30, logic=None), function=fn, key=f"C12/{fn}/post.raise",
+                                   replayer=_replay_kmer_seq)
+                    continue
+                n_ret += 1
+                res = p.value
+                if not isinstance(res, ArrV):
+                    goal = z3.BoolVal(False)
+                else:
+                    canon, idx, other = spec_cell(r0)
+                    goal = z3.Implies(z3.And(defs), z3.And(
+                        Rn >= count,
+                        z3.Implies(z3.And(0 <= r0, r0 < count), z3.And(
+                            res.at(r0) == z3.If(canon, idx, other),
+                            z3.Implies(canon, z3.And(0 <= res.at(r0), res.at(r0) < n * n * n)),
+                            z3.Implies(z3.Not(canon), res.at(r0) >= n * n * n))),
+                        z3.Implies(r0 >= count, res.at(r0) == z3.Select(res0, r0))))
+                chk.obligation(f"{base}/post.cell-r==index-of-kmer-r/path={k_}", "post",
+                               smt_thunk(p.pc, goal, 60, logic=None, instantiate=(2, [L, Rn])), function=fn,
+                               key=f"C12/{fn}/post", replayer=_replay_kmer_seq)
+            if n_ret == 0:
+                chk.error(f"{base}: no returning path")
+
+
+def _replay_kmer_seq(model):
+    import itertools
+
+    import numpy
+    from cogent3.core import new_alphabet as NA
+    n = 4
+    coeffs = NA.coord_conversion_coeffs(n, 3, dtype=numpy.int64)
+    for L in range(0, 8):
+        for vals in itertools.product((0, 1, 3, 4, 5), repeat=L) if L <= 5 else [tuple((i * 3 + 1) % 6 for i in range(L))]:
+            seq = numpy.array(vals, dtype=numpy.uint8)
+            for indep in (True, False):
+                step = 3 if indep else 1
+                count = len(range(0, L - 2, step))
+                for gap in (False, True):
+                    kw = dict(gap_char_index=4, gap_index=n ** 3) if gap else {}
+                    if count >= 1:
+                        # a result array that cannot hold one cell per k-mer must be refused (numba does not check bounds)
+                        try:
+                            NA.seq_to_kmer_indices(seq, numpy.zeros(count + 7, dtype=numpy.int64)[:count - 1], coeffs, n, 3,
+                                                   independent_kmer=indep, **kw)
+                            return {"failed": True, "witness": {"seq": list(vals), "independent_kmer": indep, "result_len": count - 1},
+                                    "description": f"seq_to_kmer_indices accepts a result array of length {count - 1} for {count} k-mers "
+                                                   f"(seq {list(vals)}, independent_kmer={indep}) and writes past its end"}
+                        except ValueError:
+                            pass
+                    result = numpy.full(count + 1, 77, dtype=numpy.int64)
+                    try:
+                        got = NA.seq_to_kmer_indices(seq, result, coeffs, n, 3, independent_kmer=indep, **kw)
+                    except Exception as ex:
+                        return {"failed": True, "witness": {"seq": list(vals), "independent_kmer": indep, "gap": gap},
+                                "description": f"seq_to_kmer_indices({list(vals)}, independent_kmer={indep}, gaps={gap}) raises {type(ex).__name__}: {ex}"}
+                    want = []
+                    for r in range(count):
+                        seg = vals[r * step:r * step + 3]
+                        if all(x < n for x in seg):
+                            want.append(seg[0] * 16 + seg[1] * 4 + seg[2])
+                        elif gap and max(seg) == 4:
+                            want.append(64)
+                        else:
+                            want.append(65 if gap else 64)
+                    want.append(77)
+                    if [int(x) for x in got] != want:
+                        return {"failed": True, "witness": {"seq": list(vals), "independent_kmer": indep, "gap": gap},
+                                "description": f"seq_to_kmer_indices({list(vals)}, independent_kmer={indep}, gaps={gap}) = {[int(x) for x in got]}, spec {want}"}
+    return {"failed": False, "description": "all sequences over {0,1,3,4,5} up to length 5 (+ samples to 7) agree with the spec"}
+
+
 def _replay_kmer(model):
     import itertools
 
@@ -396,6 +617,7 @@ def run(chk):
         chk.guard(finite_obligations)
         chk.guard(frame_obligations)
         chk.guard(kmer_obligations)
+        chk.guard(kmer_seq_obligations)
         chk.discharge()
     chk.assume("bytes.translate / str slicing are pointwise (trusted): the translation of a sequence is the concatenation of "
                "the per-codon lookups of the segments proved here")
